@@ -43,7 +43,8 @@ KNOWN_GUARDS = {
     "'rho' in self.data and 'rho0' in self.data": "algebraic (rho0/eps/rho triple; safe_division)",
     "'Tdown4' not in self.data": "algebraic (3 p_n - rho_n vs g^{mu nu} T_{mu nu})",
     "'s_Riemann_down3' in self.data.keys()": "algebraic (contraction of the lowered Riemann tensor)",
-    "'betaup3' not in self.data and 'betax' not in self.data": "algebraic GIVEN beta = 0 when neither is an input",
+    "not any((k in self.data for k in ('betaup3', 'betax', 'betay', 'betaz')))": "algebraic (beta = 0 when no shift "
+                                                                                 "component at all is cached or given)",
     "'Tdown4' in self.data.keys()": "on solutions only, up to discretisation error (Einstein equation vs Riemann)",
     "'st_Ricci_down4' in self.data.keys()": "on solutions only, up to discretisation error",
     "'st_Riemann_down4' in self.data.keys()": "on solutions only, up to discretisation error (Riemann vs E/B)",
@@ -254,6 +255,16 @@ def oracle_history(ctx, cfg, ops, tag, stats, info=None):
         else:
             stats["algebraic_alternatives"] += 1
             d = same_value(v, f[1], ALG_RTOL)
+            try:
+                a, b = np.asarray(v, dtype=complex), np.asarray(f[1], dtype=complex)
+                fin = np.isfinite(a) & np.isfinite(b)
+                if a.shape == b.shape and fin.any():
+                    r = float(np.max(np.abs(a[fin] - b[fin])) / (1.0 + np.max(np.abs(b[fin]))))
+                    if r > stats["max_algebraic_rel_diff"]:
+                        stats["max_algebraic_rel_diff"] = r
+                        stats["max_algebraic_rel_diff_key"] = key
+            except Exception:  # noqa
+                pass
         if d:
             found[0] += ctx.violation(
                 "%s: value of %r after the history differs from a fresh instance (%s; %s)"
@@ -350,7 +361,7 @@ def targeted(info, rng, keys):
 def search(ctx, info, nhist, nreq):
     keys = C03.description_keys()
     stats = dict.fromkeys(("compared", "same_alternatives", "algebraic_alternatives",
-                           "solution_only_alternatives_skipped", "solution_only_alternatives_band", "fresh_raises", "same_exception_as_fresh"), 0)
+                           "solution_only_alternatives_skipped", "solution_only_alternatives_band", "max_algebraic_rel_diff", "fresh_raises", "same_exception_as_fresh"), 0)
     runs = []
     found = 0
     # targeted histories: the two that exposed the (now fixed) Momentum cycle and eps = -1, then all guards
@@ -379,11 +390,13 @@ def search(ctx, info, nhist, nreq):
     tg = targeted(info, ctx.rng, keys)
     ctx.cov["targeted_guard_histories_available"] = len(tg)
     ctx.rng.shuffle(tg)
-    ntg = ctx.budget(45, len(tg))
+    ntg = min(len(tg), ctx.budget(60, len(tg)))
     for k, ops in tg[:ntg]:
         cfg = dict(base, inputs=ctx.rng.choice(["tensors", "components", "rho0zeros", "rho_only", "noshift",
                                                 "sol:Collins_Stewart", "sol:Collins_Stewart", "sol:Non_diagonal"]),
                    order=ctx.rng.choice((2, 4)), vacuum=ctx.rng.random() < 0.15)
+        if cfg["inputs"].startswith("sol:"):
+            cfg["vacuum"] = False
         rel, n = oracle_history(ctx, cfg, ops, "guard of " + k, stats, info)
         found += n
         runs.append((cfg, ops, rel))
@@ -446,12 +459,12 @@ def run(ctx):
     if ctx.tier == "thorough":
         ctx.leanchecker([MODULE])
     # correspondence (bookkeeping) — shared harness with C03
-    runs = C03.correspondence(ctx, "C01", ctx.budget(12, 150), ctx.budget(30, 80))
+    runs = C03.correspondence(ctx, "C01", ctx.budget(12, 60), ctx.budget(30, 60))
     # independent search oracle (always; larger when something is broken)
     extra = 3 if ctx.broken() else 1
     runs2, found = ([], 0)
     if info is not None:
-        runs2, found = search(ctx, info, ctx.budget(20, 300) * extra, ctx.budget(30, 60))
+        runs2, found = search(ctx, info, ctx.budget(35, 250) * extra, ctx.budget(30, 60))
         validate_shapes(ctx, info, runs + runs2)
 
 
@@ -460,7 +473,7 @@ def replay(ctx, obj):
         print("replay: not a history replay (kind=%s): %s" % (obj.get("kind"), obj.get("what")))
         return 1
     stats = dict.fromkeys(("compared", "same_alternatives", "algebraic_alternatives",
-                           "solution_only_alternatives_skipped", "solution_only_alternatives_band", "fresh_raises", "same_exception_as_fresh"), 0)
+                           "solution_only_alternatives_skipped", "solution_only_alternatives_band", "max_algebraic_rel_diff", "fresh_raises", "same_exception_as_fresh"), 0)
     n0 = len(ctx.violations) + len(ctx.known)
     try:
         info = depgraph.analyse()
